@@ -52,4 +52,34 @@ def run(prop, led, seed):
                             "detail": str(e)[-300:]})
         finally:
             shutil.rmtree(scratch, ignore_errors=True)
-    return {"mutants_total": len(pats) + len(seeds), "mutants_killed": killed, "mutant_results": results}
+    # behaviour-preserving refactorings: the property's rules must stay silent on every one of them
+    refs = sorted(glob.glob(os.path.join(VERIF, "seeded", "refactor", "*", "patch.diff")))
+    silent = 0
+    ref_results = []
+    for patch in refs:
+        scratch = tempfile.mkdtemp(prefix="verif-selftest-", dir="/tmp")
+        try:
+            subprocess.check_call(["rsync", "-a", "--exclude", "/target", "--exclude", ".git",
+                                   extract.REPO + "/", scratch + "/"])
+            r = subprocess.run(["patch", "-p1", "-s", "-i", patch], cwd=scratch,
+                               stdout=subprocess.PIPE, stderr=subprocess.STDOUT, text=True)
+            if r.returncode != 0:
+                ref_results.append({"refactoring": os.path.relpath(patch, VERIF), "verdict": "does-not-apply"})
+                continue
+            led2, ctx2, nf, nc = _main.decide(prop, "thorough", seed, root=scratch)
+            new = [o for o in led2.obligations if not o["ok"] and (o["rule"], o["instance"]) not in kk]
+            if not new:
+                silent += 1
+            else:
+                led.checker_error("self-test: the behaviour-preserving refactoring %s raises %s"
+                                  % (os.path.relpath(patch, VERIF), sorted({o["rule"] for o in new})))
+            ref_results.append({"refactoring": os.path.relpath(patch, VERIF),
+                                "verdict": "silent" if not new else "FALSE-ALARM",
+                                "fired": sorted({o["rule"] for o in new})})
+        except extract.ExtractionError as e:
+            ref_results.append({"refactoring": os.path.relpath(patch, VERIF), "verdict": "does-not-build",
+                                "detail": str(e)[-300:]})
+        finally:
+            shutil.rmtree(scratch, ignore_errors=True)
+    return {"mutants_total": len(pats) + len(seeds), "mutants_killed": killed, "mutant_results": results,
+            "refactorings_total": len(refs), "refactorings_silent": silent, "refactoring_results": ref_results}
